@@ -28,8 +28,11 @@ AXIOM_ALLOW = {
     "ProofIrrelevance.proof_irrelevance", "proof_irrelevance",
 }
 
+# `admit` is flagged in tactic position only (a model may name a function `admit`, e.g. HeadInbox::admit);
+# a proof containing the admit tactic cannot be closed by Qed anyway, so `Admitted` is the decisive pattern.
 FORBIDDEN = re.compile(
-    r"\b(Admitted|admit|Axiom|Axioms|Parameter|Parameters|Conjecture|Conjectures|Abort All)\b"
+    r"\b(Admitted|Axiom|Axioms|Parameter|Parameters|Conjecture|Conjectures|Abort All|give_up)\b"
+    r"|(?:(?:^|[.;\[|(])\s*|\b(?:by|try|repeat|first|solve)\s+)admit\s*(?=[.;|\])])"
     r"|Admit Obligations|Unset Guard Checking|Unset Positivity Checking|Unset Universe Checking"
     r"|bypass_check|type-in-type|impredicative-set|native_compute")
 
